@@ -657,6 +657,35 @@ def r_term(rep, hc):
                 has_cmp = True
                 if c["op"] != "Ge":
                     probs.append("occurrence test is `%s`, expected hits >= terminal_count" % tast.render(c))
+        if not (has_limit and has_cmp):
+            # other shapes (early `continue`, match on the option, unwrap_or): decide on the path condition of the return in
+            # the symbolic run - some condition known there must be  hits >= L  with hits read from event_hits and L derived
+            # from EventConfig::terminal_count
+            from poly import reaches
+            sem = None
+            for ev in hc.sx.trace:
+                if ev["kind"] == "return" and ev["node"] is r:
+                    import symx as _symx
+                    known = [(branch, cv) for node_, branch, cv in ev.get("pc", [])]
+                    known += [("then" if tr_ else "else", cv) for cv, tr_ in ((ev.get("state") or {}).get(_symx.FACTS) or frozenset())]
+                    for branch, cv in known:
+                        a_ = cv.single_atom() if isinstance(cv, Poly) else None
+                        d_ = DEFS.get(a_) if a_ else None
+                        if not d_ or d_[0] not in ("ge", "gt", "le", "lt", "eq") or len(d_[1]) != 2 or not all(isinstance(q, Poly) for q in d_[1]):
+                            continue
+                        op_ = d_[0] if branch == "then" else {"ge": "lt", "gt": "le", "le": "gt", "lt": "ge", "eq": "ne"}[d_[0]]
+                        l_, r_ = d_[1]
+                        is_h = lambda q: reaches(q, lambda at: "event_hits" in at)
+                        is_l = lambda q: reaches(q, lambda at: "terminal_count" in at)
+                        if is_h(l_) and is_l(r_) and not is_l(l_):
+                            sem = op_
+                        elif is_h(r_) and is_l(l_) and not is_l(r_):
+                            sem = {"ge": "le", "gt": "lt", "le": "ge", "lt": "gt", "eq": "eq", "ne": "ne"}[op_]
+            if sem == "ge":
+                has_limit = has_cmp = True
+            elif sem is not None:
+                probs.append("occurrence test is hits %s terminal_count on the path to Interrupt, expected hits >= terminal_count" % sem)
+                has_limit = has_cmp = True
         if not has_limit:
             probs.append("Interrupt is not guarded by `if let Some(limit) = config.terminal_count`")
         if not has_cmp:
@@ -1357,8 +1386,21 @@ def time_types(hc):
     lets = tast.find(body, lambda z: z.get("k") == "Let" and z["pat"].get("k") == "PBind" and z.get("init") is not None and (z["pat"].get("ty") or "") == "f64")
     asgs = tast.find(body, lambda z: z.get("k") in ("Assign", "AssignOp") and z["l"].get("k") == "Path" and (z["l"].get("ty") or "") == "f64")
     rank = {S: 0, D: 1, P: 2}
+    # closures bound to a local: their f64 parameters take the type of the arguments they are called with
+    clos = {}
+    for l in tast.find(body, lambda z: z.get("k") == "Let" and z["pat"].get("k") == "PBind" and (z.get("init") or {}).get("k") == "Closure"):
+        clos[l["pat"]["id"]] = l["init"]
+    ccalls = [c_ for c_ in tast.find(body, lambda z: z.get("k") == "Call" and (z.get("f") or {}).get("k") == "Path" and (z.get("f") or {}).get("res") == "local" and z["f"].get("id") in clos)]
     for _ in range(6):
         changed = False
+        for c_ in ccalls:
+            ps = clos[c_["f"]["id"]].get("params") or []
+            for p_, a_ in zip(ps, c_["args"]):
+                if p_.get("k") == "PBind" and (p_.get("ty") or "") == "f64":
+                    t = ty(a_)
+                    if rank[t] > rank[env.get(p_["id"], S)]:
+                        env[p_["id"]] = t
+                        changed = True
         for l in lets:
             t = ty(l["init"])
             if rank[t] > rank[env.get(l["pat"]["id"], S)]:
@@ -1422,6 +1464,10 @@ def r_dir_mirror(rep, hc):
             nodes[tast.render(e)] = e
         collect(c["l"])
         collect(c["r"])
+        # a term whose role (time point / tolerance) the type system could not establish makes the comparison ambiguous
+        for n_ in nodes.values():
+            if n_.get("k") == "Path" and n_.get("res") == "local" and (n_.get("ty") or "") == "f64" and n_["id"] not in env_t:
+                return None
         linear(c["l"], 1, terms)
         linear(c["r"], -1, terms)
         terms = {t_: v for t_, v in terms.items() if v != 0}
